@@ -1,5 +1,5 @@
 From Coq Require Import Reals ZArith List String.
-From OV Require Import Ops RInst XR Num.OpsC09 Gen.Wavefront Model.Trace Model.M_C09 Spec.S_C09 Lemmas.L_C09_sphere Lemmas.L_C09_tilt Lemmas.L_C09_data Lemmas.L_C09_stats.
+From OV Require Import Ops RInst XR Num.OpsC09 Gen.Wavefront Model.Trace Model.M_C09 Spec.S_C09 Lemmas.L_C09_sphere Lemmas.L_C09_tilt Lemmas.L_C09_data Lemmas.L_C09_stats Lemmas.L_C09_xr Lemmas.L_C09_table.
 Local Open Scope R_scope.
 Import ListNotations.
 
@@ -102,7 +102,7 @@ Theorem C09_path_length_is_path_to_sphere_partial :
   forall (n_img : R) (xc yc zc Rr opd xr yr zr L M N : T ROps)
          (opds xs ys zs Ls Ms Ns : list (T ROps)),
        n_img = 1%R ->
-       k_wf_path_length ROps xc yc zc Rr (opds ++ opd :: nil) (xs ++ xr :: nil) 
+       k_wf_get_path_length ROps xc yc zc Rr (opds ++ opd :: nil) (xs ++ xr :: nil) 
          (ys ++ yr :: nil) (zs ++ zr :: nil) (Ls ++ L :: nil) (Ms ++ M :: nil) 
          (Ns ++ N :: nil) =
        path_to_sphere 0 opd n_img (t_xp xc yc zc Rr xr yr zr L M N xs ys zs Ls Ms Ns).
@@ -348,4 +348,56 @@ Theorem C09_opd_difference_constant :
   forall (c : R) (n : nat) (weights : list R), mean_abs_dev (repeat c (S n)) weights = 0%R.
 Proof. exact opd_difference_constant. Qed.
 Print Assumptions C09_opd_difference_constant.
+
+Theorem C09_image_to_xp_miss :
+  forall (xc yc zc Rr xr yr zr L M N : R) (xs ys zs Ls Ms Ns : list R),
+       (- (2 * (L * (xr - xc) + M * (yr - yc) + N * (zr - zc))) *
+        - (2 * (L * (xr - xc) + M * (yr - yc) + N * (zr - zc))) -
+        4 * (L * L + M * M + N * N) *
+        ((xr - xc) * (xr - xc) + (yr - yc) * (yr - yc) + (zr - zc) * (zr - zc) - Rr * Rr) < 0)%R ->
+       t_xp_x xc yc zc Rr xr yr zr L M N xs ys zs Ls Ms Ns = NaN.
+Proof. exact image_to_xp_miss. Qed.
+Print Assumptions C09_image_to_xp_miss.
+
+Theorem C09_image_to_xp_finite_sound :
+  forall (xc yc zc Rr xr yr zr L M N : R) (xs ys zs Ls Ms Ns : list R) (t : R),
+       t_xp_x xc yc zc Rr xr yr zr L M N xs ys zs Ls Ms Ns = Fin t ->
+       (L * L + M * M + N * N)%R <> 0%R /\
+       (0 <=
+        - (2 * (L * (xr - xc) + M * (yr - yc) + N * (zr - zc))) *
+        - (2 * (L * (xr - xc) + M * (yr - yc) + N * (zr - zc))) -
+        4 * (L * L + M * M + N * N) *
+        ((xr - xc) * (xr - xc) + (yr - yc) * (yr - yc) + (zr - zc) * (zr - zc) - Rr * Rr))%R /\
+       on_sphere (xc, yc, zc) (Rr * Rr) (back (xr, yr, zr) (L, M, N) t).
+Proof. exact image_to_xp_finite_sound. Qed.
+Print Assumptions C09_image_to_xp_finite_sound.
+
+Theorem C09_generate_data_entry :
+  forall (lens : R -> list (surf ROps)) (ps : list (Paraxial.psurf ROps)) 
+         (c : wfcfg ROps) (lc : launchcfg ROps) (fields : list (fieldspec ROps))
+         (wls : list (T ROps)) (dist : list (T ROps * T ROps)) (d : wfdata (O:=ROps)),
+       generate_data (O:=ROps) lens ps c lc fields wls dist = Some d ->
+       List.length d = List.length fields /\
+       (forall (i j : nat) (f : fieldspec ROps) (w : T ROps),
+        nth_error fields i = Some f ->
+        nth_error wls j = Some w ->
+        field_data (lens w) (pupil_z_of ps) c lc w (f_Hx f) (f_Hy f) (f_vx f) (f_vy f) dist =
+        Some (wf_cell (wf_row d (Z.of_nat i)) (Z.of_nat j))).
+Proof. exact generate_data_entry. Qed.
+Print Assumptions C09_generate_data_entry.
+
+Theorem C09_rms_vs_field_table :
+  forall (n : nat) (wls : list R) (data : wfdata (O:=ROps)) (i j : nat),
+       (i < n)%nat ->
+       (j < List.length wls)%nat ->
+       get2Z (O:=ROps) (k_wf_rms_vs_field ROps (Z.of_nat n) wls data) (Z.of_nat i) (Z.of_nat j) =
+       rmsR (fst (wf_cell (wf_row data (Z.of_nat i)) (Z.of_nat j))).
+Proof. exact rms_vs_field_table. Qed.
+Print Assumptions C09_rms_vs_field_table.
+
+Theorem C09_rms_vs_field_shape :
+  forall (n : nat) (wls : list R) (data : wfdata (O:=ROps)),
+       shape (k_wf_rms_vs_field ROps (Z.of_nat n) wls data) n (List.length wls).
+Proof. exact rms_vs_field_shape. Qed.
+Print Assumptions C09_rms_vs_field_shape.
 
